@@ -376,7 +376,7 @@ func c20CRSetup(k connCfg, variant string) func(c *fw.Ctx, name string) explore.
 					if variant == "transport-close-lingers" {
 						vtime.Sleep(time.Second) // the connection is being closed by the library by now
 					}
-					if variant == "slow-handshake" || variant == "stall-in-discard" || variant == "unfinished-message" || variant == "ping-then-header" || variant == "streaming-peer" || variant == "writer-closed-twice" {
+					if variant == "slow-handshake" || variant == "stall-in-discard" || variant == "unfinished-message" || variant == "ping-then-header" || variant == "streaming-peer" || variant == "writer-closed-twice" || variant == "stuck-closeframe" {
 						// let the CloseRead goroutine start its close handshake first
 						p.WaitOut("close-begun", func(out []byte) bool { return len(out) > 0 })
 						endErr = conn.Close(websocket.StatusNormalClosure, "")
@@ -479,7 +479,7 @@ func c20Scenarios(tier string) []scenario {
 		}
 	}
 	for _, k := range []connCfg{{Client: false}, {Client: true}} {
-		for _, v := range []string{"two-closeread", "slow-handshake", "stall-in-discard", "transport-close-fails", "transport-close-lingers", "unfinished-message", "ping-then-header", "streaming-peer", "writer-closed-twice"} {
+		for _, v := range []string{"two-closeread", "slow-handshake", "stall-in-discard", "transport-close-fails", "transport-close-lingers", "unfinished-message", "ping-then-header", "streaming-peer", "writer-closed-twice", "stuck-closeframe"} {
 			pv := 2
 			if tier == "thorough" {
 				pv = 3
